@@ -8,6 +8,7 @@ ir = IR(sys.argv[1])
 print("load", time.time()-t0)
 eng = Engine(ir)
 intrinsics.install(eng)
+import models; models.install(eng)
 st = eng.initial_state()
 eng.run_function(sys.argv[2], (), st)
 print("time", time.time()-t0)
